@@ -17,3 +17,10 @@ func witnessRead(b []byte) {
 		runtime.RaceReadRange(unsafe.Pointer(&b[0]), len(b))
 	}
 }
+
+// witnessMem is witnessRead for arbitrary memory.
+func witnessMem(p unsafe.Pointer, n int) {
+	if n > 0 {
+		runtime.RaceReadRange(p, n)
+	}
+}
